@@ -49,6 +49,7 @@ type c20query struct {
 	// failure family: every operation wrapped in AWAIT (evaluation deferred to the end of the
 	// query, in the same order); a RAISE_WHEN(a = raiseA, 'boom') inserted before operation raiseAt
 	await    bool
+	nested   bool // the table is given as an array of arrays
 	raisePos int // 0: none; k: before operation k-1 (len(ops)+1: after the last one)
 	raiseA   float64
 }
@@ -294,7 +295,28 @@ func (p *c20) modelF(q *c20query, vars map[string]any) (out []string, failed boo
 // step runs q on the real engine with the shared map.
 func (p *c20) step(q *c20query, vars map[string]any) *gq.Out {
 	doc := map[string]any{"t": gq.Clone(p.tables[q.table])}
+	if q.nested {
+		// the same rows as an array of arrays (first row alone, the rest together): evaluation order
+		// is still the rows' order
+		rows := gq.Clone(p.tables[q.table]).([]any)
+		if len(rows) > 0 {
+			doc["t"] = []any{rows[:1], rows[1:]}
+		}
+	}
 	return gq.Run(doc, p.sql(q), genql.WithVars(vars))
+}
+
+// flatten turns the nested result of a nested source back into the sequence of rows.
+func flatten(rows []any) []any {
+	var out []any
+	for _, x := range rows {
+		if sub, ok := x.([]any); ok {
+			out = append(out, flatten(sub)...)
+		} else {
+			out = append(out, x)
+		}
+	}
+	return out
 }
 
 func init() {
@@ -325,8 +347,9 @@ func (p *c20) runFail(r *core.CaseResult, f *c20fail) {
 				as = append(as, row.(map[string]any)["a"].(float64))
 			}
 			for pos := 1; pos <= len(f.ops)+1; pos++ {
-				for _, a := range as {
-					q := c20query{ops: f.ops, table: t, await: f.await, raisePos: pos, raiseA: a}
+				for ai, a := range as {
+					nested := ai%2 == 1 && t > 1 // every other failing row on the multi-row tables: nested source
+					q := c20query{ops: f.ops, table: t, await: f.await, raisePos: pos, raiseA: a, nested: nested}
 					impl, mod := gq.CloneMap(p.inits[init]), gq.CloneMap(p.inits[init])
 					want, failed := p.modelF(&q, mod)
 					out := p.step(&q, impl)
@@ -343,6 +366,9 @@ func (p *c20) runFail(r *core.CaseResult, f *c20fail) {
 						continue
 					}
 					if !failed {
+						if nested {
+							out.Rows = flatten(out.Rows)
+						}
 						if got := gq.RenderRows(out.Rows); !gq.SameSeq(got, want) {
 							r.Fail("C20|failure-"+mode+"|rows", fmt.Sprintf("%s: rows %v, register model %v", what, got, want), cs)
 							continue
@@ -612,7 +638,7 @@ func (p *c20) reExec(r *core.CaseResult, i int) {
 
 func (p *c20) Meta() core.Meta {
 	return core.Meta{
-		Rule:        "explicit-state search over the shared variable map: one case per first select list (every sequence of 1..3 operations (quick: length 3 only over the first 8) over {SETVAR(k1,1), SETVAR(k1,a), SETVAR(K2,'x'), GETVAR(k1), GETVAR(K2), SETVAR(k1,GETVAR(K2)), SETVAR(k1,'1'), (SELECT SETVAR(k1,7), 1 AS one FROM dual), SETVAR(k1,ARRAY(a)), GETVAR('k1.K2'), SETVAR(K2,a) AS alias, SETVAR(7,a), GETVAR(7)}) run on 4 tables (0-3 rows) with/without WHERE from 3 initial maps; every distinct reached map is expanded breadth-first by every follow-up query (sequences of <= 2 operations x tables x WHERE) to depth 2 (thorough 3); a successor is the shortest path replayed on a fresh map plus one query; every step is compared with a sequential register model (rows, absence of SETVAR columns, caller's map); every first query that reads is also executed, followed by another query and a write by the caller on the same map, and then executed again as the same Query object. Failure family: every select list of <= 2 plain operations with a RAISE_WHEN(a = x, 'boom') at every position, firing on every row or on none, every operation evaluated immediately or deferred with AWAIT, on 3 tables from 3 initial maps: the query fails iff the model's evaluation reaches a firing RAISE_WHEN, the caller's map holds exactly the writes evaluated before it, and a later query reads them. Concurrent family: 3 queries whose select list runs ASYNC / SPINASYNC calls that read (GetVarFunc) or write another key of (SetVarFunc) the same store next to the query's own SETVAR / GETVAR, under every schedule within 2 (thorough 3) preemptions: a GETVAR right after a SETVAR on the evaluating goroutine returns the value just written. non-trivial = the first query ran on a non-empty table and left a non-empty map",
+		Rule:        "explicit-state search over the shared variable map: one case per first select list (every sequence of 1..3 operations (quick: length 3 only over the first 8) over {SETVAR(k1,1), SETVAR(k1,a), SETVAR(K2,'x'), GETVAR(k1), GETVAR(K2), SETVAR(k1,GETVAR(K2)), SETVAR(k1,'1'), (SELECT SETVAR(k1,7), 1 AS one FROM dual), SETVAR(k1,ARRAY(a)), GETVAR('k1.K2'), SETVAR(K2,a) AS alias, SETVAR(7,a), GETVAR(7)}) run on 4 tables (0-3 rows) with/without WHERE from 3 initial maps; every distinct reached map is expanded breadth-first by every follow-up query (sequences of <= 2 operations x tables x WHERE) to depth 2 (thorough 3); a successor is the shortest path replayed on a fresh map plus one query; every step is compared with a sequential register model (rows, absence of SETVAR columns, caller's map); every first query that reads is also executed, followed by another query and a write by the caller on the same map, and then executed again as the same Query object. Failure family: every select list of <= 2 plain operations with a RAISE_WHEN(a = x, 'boom') at every position, firing on every row or on none, every operation evaluated immediately or deferred with AWAIT, on 3 tables (the multi-row ones also given as arrays of arrays) from 3 initial maps: the query fails iff the model's evaluation reaches a firing RAISE_WHEN, the caller's map holds exactly the writes evaluated before it, and a later query reads them. Concurrent family: 3 queries whose select list runs ASYNC / SPINASYNC calls that read (GetVarFunc) or write another key of (SetVarFunc) the same store next to the query's own SETVAR / GETVAR, under every schedule within 2 (thorough 3) preemptions: a GETVAR right after a SETVAR on the evaluating goroutine returns the value just written. non-trivial = the first query ran on a non-empty table and left a non-empty map",
 		Assumptions: []string{"evaluation order = rows in source order, select-list items left to right (the property's statement)", "values stored are numbers and strings; keys are string literals", "evaluation stops at the first failing step: a SETVAR that comes after it in evaluation order (later item, later row; for AWAIT-deferred lists the same order, at the end of the query) is not evaluated and writes nothing"},
 		Bounds:      map[string]any{"first_lists": len(p.lists), "followup_queries": len(p.queries), "depth": p.depth},
 		Exhaustive:  true,
